@@ -648,6 +648,39 @@ fn eval_subproc(exe: &std::path::Path, sc: &Scenario, values: &[Vec<u64>; 3]) ->
     }
 }
 
+/// one run from its seed with every draw streamed to a file (child of write_replay for fatal
+/// violations): `record <scenario> <base> <idx> <file>`
+fn record(scs: &[Scenario], args: &[String]) {
+    let sc = find(scs, &args[0]);
+    let base: u64 = args[1].parse().unwrap();
+    let idx: u64 = args[2].parse().unwrap();
+    tape::trace_to(&args[3]);
+    let seed = run_seed(base, &sc.full_name(), idx);
+    let r = run_one(sc, Tape::from_seed(seed).with_index(idx), false, seed);
+    match r.violation {
+        Some(v) => println!("KEY {}", v.key()),
+        None => println!("OK"),
+    }
+}
+
+/// reads back a draw trace written by `record`
+fn read_trace(path: &str) -> ([Vec<u64>; 3], [Vec<(String, u64)>; 3]) {
+    let mut values: [Vec<u64>; 3] = [Vec::new(), Vec::new(), Vec::new()];
+    let mut meta: [Vec<(String, u64)>; 3] = [Vec::new(), Vec::new(), Vec::new()];
+    for line in std::fs::read_to_string(path).unwrap_or_default().lines() {
+        let f: Vec<&str> = line.split('\t').collect();
+        if f.len() == 4 {
+            if let (Ok(st), Ok(b), Ok(v)) = (f[0].parse::<usize>(), f[2].parse::<u64>(), f[3].parse::<u64>()) {
+                if st < 3 {
+                    values[st].push(v);
+                    meta[st].push((f[1].to_string(), b));
+                }
+            }
+        }
+    }
+    (values, meta)
+}
+
 fn probe(scs: &[Scenario], args: &[String]) {
     let sc = find(scs, &args[0]);
     let text = std::fs::read_to_string(&args[1]).unwrap_or_default();
@@ -712,7 +745,7 @@ fn trim(values: &mut [Vec<u64>; 3]) {
 /// Shrinks `values` while the same violation key reproduces. Order: faults, schedule, workload;
 /// within a stream: truncate (zero the tail), zero blocks, then reduce surviving values.
 fn minimise(exe: &std::path::Path, sc: &Scenario, key: &str, values: [Vec<u64>; 3], subproc: bool) -> ([Vec<u64>; 3], u64) {
-    let mut m = Minimiser { exe, sc, key: key.to_string(), subproc, evals: 0, budget: if subproc { 150 } else { 3000 } };
+    let mut m = Minimiser { exe, sc, key: key.to_string(), subproc, evals: 0, budget: if !subproc { 3000 } else if key.starts_with("hang") { 30 } else { 150 } };
     let mut cur = values;
     trim(&mut cur);
     let order = [2usize, 1, 0];
@@ -806,9 +839,69 @@ fn write_replay(
     let key = f.violation.key();
     let fatal = f.violation.oracle == "process-died" || f.violation.oracle == "hang";
     // reproduce from the seed to get the recorded tape
+    if fatal {
+        // the run kills or hangs its process: record its decisions from a child that streams
+        // every draw to a file, minimise with one child per candidate, replay by values
+        let dir = format!("{}/target/tmp", verif_dir());
+        let _ = std::fs::create_dir_all(&dir);
+        let tfile = format!("{dir}/trace-{}.txt", std::process::id());
+        let mut child = Command::new(exe)
+            .args(["record", &full, &base.to_string(), &f.idx.to_string(), &tfile])
+            .stdin(Stdio::null())
+            .stdout(Stdio::null())
+            .stderr(Stdio::null())
+            .spawn()
+            .map_err(|e| e.to_string())?;
+        let t0 = Instant::now();
+        loop {
+            match child.try_wait() {
+                Ok(Some(_)) => break,
+                Ok(None) if t0.elapsed() > Duration::from_secs(sc.watchdog_s.min(30)) => {
+                    let _ = child.kill();
+                    let _ = child.wait();
+                    break;
+                },
+                Ok(None) => std::thread::sleep(Duration::from_millis(10)),
+                Err(e) => return Err(e.to_string()),
+            }
+        }
+        let (values, _meta) = read_trace(&tfile);
+        let _ = std::fs::remove_file(&tfile);
+        let confirmed = eval_subproc(exe, sc, &values);
+        if confirmed.as_deref() != Some(key.as_str()) {
+            return Err(format!("fatal run {} of {} did not reproduce from its recorded decisions (got {:?}, wanted {})", f.idx, full, confirmed, key));
+        }
+        let before: usize = values.iter().map(|s| s.iter().filter(|v| **v != 0).count()).sum();
+        let (minv, evals) = minimise(exe, sc, &key, values, true);
+        let after: usize = minv.iter().map(|s| s.iter().filter(|v| **v != 0).count()).sum();
+        stats_note(before, after);
+        let dir = format!("{}/replays", verif_dir());
+        let _ = std::fs::create_dir_all(&dir);
+        let h = fnv(key.as_bytes()) & 0xffff_ffff;
+        let path = format!("{dir}/{}-{}-{}-{}-{:08x}.json", sc.property, sc.name, config, base, h);
+        let vals = Json::Arr(minv.iter().map(|s| Json::Arr(s.iter().map(|v| Json::Int(*v as i128)).collect())).collect());
+        let j = Json::obj()
+            .set("property", Json::str(sc.property))
+            .set("scenario", Json::str(full.clone()))
+            .set("config", Json::str(config))
+            .set("verif_seed", Json::Int(base as i128))
+            .set("tier", Json::str(std::env::var("VERIF_BATCH_TIER").unwrap_or_else(|_| "quick".to_string())))
+            .set("run_index", Json::Int(f.idx as i128))
+            .set("run_seed", Json::Str(format!("{seed:x}")))
+            .set("violation", viol_json(&f.violation))
+            .set("key", Json::str(key.clone()))
+            .set("minimiser_evaluations", Json::Int(evals as i128))
+            .set("mode", Json::str("values-in-child"))
+            .set("values", vals);
+        std::fs::write(&path, j.to_string_pretty()).map_err(|e| e.to_string())?;
+        let out = Command::new(exe).args(["replay", &path]).stdin(Stdio::null()).stdout(Stdio::piped()).stderr(Stdio::null()).output().map_err(|e| e.to_string())?;
+        let text = String::from_utf8_lossy(&out.stdout);
+        if !text.lines().any(|l| l == format!("REPRODUCED {key}")) {
+            return Err(format!("replay of {path} in a fresh process did not reproduce {key}: {}", text.trim()));
+        }
+        return Ok(path);
+    }
     let (values, detail) = if fatal {
-        // cannot run in-process; regenerate the values by running the PRNG tape in a child is not
-        // possible without the record, so replay is by seed (lenient values empty => PRNG).
         (None, f.violation.detail.clone())
     } else {
         let r = run_one(sc, Tape::from_seed(seed).with_index(f.idx), false, seed);
@@ -905,6 +998,30 @@ fn replay(scs: &[Scenario], exe: &std::path::Path, args: &[String]) -> i32 {
     };
     let key = j.get("key").and_then(|s| s.as_str()).unwrap_or("").to_string();
     let mode = j.get("mode").and_then(|s| s.as_str()).unwrap_or("tape");
+    if mode == "values-in-child" {
+        let mut values: [Vec<u64>; 3] = [Vec::new(), Vec::new(), Vec::new()];
+        if let Some(arr) = j.get("values").and_then(|a| a.as_arr()) {
+            for i in 0..3 {
+                if let Some(st) = arr.get(i).and_then(|a| a.as_arr()) {
+                    values[i] = st.iter().map(|v| v.as_u64().unwrap_or(0)).collect();
+                }
+            }
+        }
+        return match eval_subproc(exe, sc, &values) {
+            Some(k) if k == key => {
+                println!("REPRODUCED {key}");
+                1
+            },
+            Some(k) => {
+                println!("DIFFERENT {k}");
+                1
+            },
+            None => {
+                println!("NOT-REPRODUCED run completed without a violation");
+                0
+            },
+        };
+    }
     if mode == "seed" {
         // fatal violations (abort, hang): run from the seed in a child and watch it die
         let base = j.get("verif_seed").and_then(|v| v.as_u64()).unwrap_or(1);
@@ -1117,6 +1234,10 @@ pub fn main(scs: Vec<Scenario>, config: &str) -> ! {
         },
         "probe" => {
             probe(&scs, rest);
+            0
+        },
+        "record" => {
+            record(&scs, rest);
             0
         },
         "replay" => replay(&scs, &exe, rest),
